@@ -45,6 +45,8 @@ C = {
              text='get_last / get_next / get_new are operators over the tree state following the code path (FindInAll with ">", the configured NextGetter); the workflow guarantees are invariants over all publish histories; every behaviour is replayed with the real API and validated step by step.', ref='5 (C18)'),
  'C19': dict(tech='TLC model checking of MC_Extrapolate (ExtrapolationOK, ReplaceScoped over a grammar of configurations) + replay into extrapolate_templates / pattern_replacing + TLC trace validation',
              text='The declarative statement of the property is checked against the operational Extrapolate on every configuration of the grammar; the real functions are then validated on the same configurations and on the shipped one.', ref='5 (C19)'),
+ 'C20': dict(tech='configuration packages generated from the shipped one (renamed keys incl. the leaf key, basetypes, type codes, project; other separators and fixed folders; an inserted level; extrapolation from the leaf types) + for each: fresh extraction, TLC model checking of the C01-C08 (thorough: + C03, C11) families on THAT configuration, replay on the real spil running with it, TLC trace validation',
+             text='The specification never names a key, type or value: everything comes from conf.json, which is extracted anew from each generated package; the same TLC families, replays and trace validations as for C01-C08 are run under every package, so a dependency of the library on the demo names, levels or separators shows as a violation that the shipped configuration does not have.', ref='5 (C20)'),
 }
 checks = []
 for p in props:
